@@ -1,10 +1,7 @@
 (* C02 Parsing recovers exactly the components of any legal spelling *)
 Load "coq/props/Hdr".
 From PM Require Import C02.
-Lemma src_rt : rt_ok cfg. Proof. apply conds_rt_ok. vm_compute. reflexivity. Qed.
-Lemma src_tbl : tbl_ok cfg. Proof. apply conds_tbl_ok. vm_compute. reflexivity. Qed.
-Lemma src_cfg_ok : cfg_ok cfg. Proof. exact (rt_cfg _ src_rt). Qed.
-Ltac sc := sidecond_with src_rt src_tbl.
+Lemma src_cfg_ok : cfg_ok cfg. Proof. sc. Qed.
 (* right-to-left splitting at '#', '?', '@' is what the property's statement fixes *)
 Lemma src_dirs : dir_sub cfg = true /\ dir_qual cfg = true /\ dir_ver cfg = true. Proof. vm_compute. auto. Qed.
 Theorem C02_generic : forall sp, spelling_ok cfg sp ->
